@@ -5,6 +5,7 @@ import (
 	"hash/fnv"
 	"reflect"
 
+	"github.com/bluenviron/mediacommon/v2/pkg/codecs/mpeg4audio"
 	"github.com/pion/rtp"
 )
 
@@ -116,6 +117,40 @@ func Alphabet(c *Codec, rich bool) (all []Shape, big []Shape) {
 				pos = "only"
 			}
 			add(fmt.Sprintf("%s.%s", kn, pos), clonePayload(p.Payload))
+		}
+	}
+	// a second single-packet frame with different content (so that "a later frame overwrites an earlier
+	// returned one" is visible) and format-specific mode switches that a grammar-aware sender can trigger
+	if sz := kinds["single"]; sz != nil {
+		if fr, ok := c.Make(sz, 977); ok {
+			if enc, err := c.NewEnc(limit, 1, 7); err == nil {
+				if pk, err := enc.Encode(fr); err == nil && len(pk) == 1 {
+					add("single-alt.only", clonePayload(pk[0].Payload))
+				}
+			}
+		}
+	}
+	switch c.Base {
+	case "h264":
+		// a NALU that contains an Annex-B start code switches the decoder to Annex-B mode for good
+		add("annexb-latch.only", []byte{0x65, 0x11, 0x22, 0, 0, 0, 1, 0x41, 0x33, 0x44})
+		add("annexb-prefixed.only", []byte{0, 0, 0, 1, 0x65, 0x55, 0x66, 0x77})
+		add("plain-nalu-a.only", []byte{0x41, 0xA1, 0xA2, 0xA3, 0xA4, 0xA5})
+		add("plain-nalu-b.only", []byte{0x41, 0xB1, 0xB2, 0xB3, 0xB4})
+	case "mpeg4audio":
+		// a first access unit that is an ADTS frame switches the decoder to ADTS mode
+		adts, err := mpeg4audio.ADTSPackets{{Type: mpeg4audio.ObjectTypeAACLC, SampleRate: 44100, ChannelCount: 2, AU: []byte{0x21, 0x10, 0x04, 0x60}}}.Marshal()
+		if err == nil {
+			if enc, err := c.NewEnc(limit, 1, 7); err == nil {
+				if pk, err := enc.Encode(Frame{Units: [][]byte{adts}}); err == nil && len(pk) == 1 {
+					add("adts.only", clonePayload(pk[0].Payload))
+				}
+				adts2 := append([]byte{}, adts...)
+				adts2[len(adts2)-1] ^= 0x55
+				if pk, err := enc.Encode(Frame{Units: [][]byte{adts2}}); err == nil && len(pk) == 1 {
+					add("adts-alt.only", clonePayload(pk[0].Payload))
+				}
+			}
 		}
 	}
 	// large fragments: a frame of ~3 x 65000 bytes at limit 65000
